@@ -98,22 +98,41 @@ type cliConn struct {
 	wrClosed  bool  // the proxy closed the write side (CloseWrite): the client sees EOF, nothing more can be written
 	finErr    error // non-nil: the Read that returns the client's last bytes also returns this error
 	finGiven  bool
+	// deadline log (chat.go): every Read / Write issued on this (inner) connection with the deadline
+	// of its direction in force when it was called
+	logging      bool
+	base         time.Time
+	rdRaw, wrRaw time.Time // the last value given to SetReadDeadline / SetWriteDeadline (zero: none)
+	rdRet, wrRet int64     // when the previous Read / Write returned (ns since base)
+	dlLog        []dlEntry
 }
 
 func newCli(steps []cstep, end int, local, remote *net.TCPAddr) *cliConn {
-	c := &cliConn{steps: steps, end: end, local: local, remote: remote, lastProg: time.Now()}
+	c := &cliConn{steps: steps, end: end, local: local, remote: remote, lastProg: time.Now(), base: time.Now()}
 	c.cond = sync.NewCond(&c.mu)
 	return c
 }
 
-func (c *cliConn) Read(p []byte) (int, error) {
+func (c *cliConn) Read(p []byte) (n int, err error) {
+	called := time.Now()
 	c.mu.Lock()
 	defer c.mu.Unlock()
+	var now time.Time // the clock reading on which this Read decides (deadline first, then data)
+	if c.logging {
+		e := dlEntry{Read: true, Lo: c.rdRet, Ts: called.Sub(c.base).Nanoseconds(), Dl: c.rdRaw}
+		defer func() {
+			_, e.Cut = err.(timeoutErr)
+			e.Te = now.Sub(c.base).Nanoseconds()
+			c.rdRet = e.Te
+			c.dlLog = append(c.dlLog, e)
+		}()
+	}
 	for {
+		now = time.Now()
 		if c.closed {
 			return 0, net.ErrClosed
 		}
-		if c.rdExpired || (!c.rdDeadline.IsZero() && !time.Now().Before(c.rdDeadline)) {
+		if c.rdExpired || (!c.rdDeadline.IsZero() && !now.Before(c.rdDeadline)) {
 			return 0, timeoutErr{}
 		}
 		if len(p) == 0 {
@@ -161,8 +180,15 @@ func (c *cliConn) Read(p []byte) (int, error) {
 }
 
 func (c *cliConn) Write(p []byte) (int, error) {
+	called := time.Now()
 	c.mu.Lock()
 	defer c.mu.Unlock()
+	if c.logging {
+		// the scripted client takes the bytes at once: the operation can complete when it is called
+		ts := called.Sub(c.base).Nanoseconds()
+		c.dlLog = append(c.dlLog, dlEntry{Read: false, Lo: c.wrRet, Ts: ts, Dl: c.wrRaw, Te: ts})
+		defer func() { c.wrRet = time.Since(c.base).Nanoseconds() }()
+	}
 	if c.closed {
 		return 0, net.ErrClosed
 	}
@@ -203,9 +229,13 @@ func (c *cliConn) Close() error {
 }
 func (c *cliConn) LocalAddr() net.Addr           { return c.local }
 func (c *cliConn) RemoteAddr() net.Addr          { return c.remote }
-func (c *cliConn) SetDeadline(t time.Time) error { return c.SetReadDeadline(t) }
+func (c *cliConn) SetDeadline(t time.Time) error {
+	c.SetWriteDeadline(t)
+	return c.SetReadDeadline(t)
+}
 func (c *cliConn) SetReadDeadline(t time.Time) error {
 	c.mu.Lock()
+	c.rdRaw = t
 	c.rdExpired = !t.IsZero() && !t.After(time.Now())
 	c.rdDeadline = time.Time{}
 	if !t.IsZero() && t.After(time.Now()) {
@@ -220,7 +250,12 @@ func (c *cliConn) SetReadDeadline(t time.Time) error {
 	c.mu.Unlock()
 	return nil
 }
-func (c *cliConn) SetWriteDeadline(time.Time) error { return nil }
+func (c *cliConn) SetWriteDeadline(t time.Time) error {
+	c.mu.Lock()
+	c.wrRaw = t
+	c.mu.Unlock()
+	return nil
+}
 
 func (c *cliConn) snapshot() (recv []byte, closed bool, last time.Time, stepsLeft int) {
 	c.mu.Lock()
@@ -295,6 +330,7 @@ type script struct {
 	ReqSplit  int
 	EarlyCase bool
 	NoWait101 bool // the client sends everything with / right after its request and half-closes without waiting for the 101
+	Chat      *chat // a conversation in rounds (chat.go): Segs are the client's messages, Chat.Msgs the upstream's
 }
 
 const wsReq = "GET /ws HTTP/1.1\r\nHost: front.example\r\nConnection: Upgrade\r\nUpgrade: websocket\r\nSec-WebSocket-Key: dGhlIHNhbXBsZSBub25jZQ==\r\nSec-WebSocket-Version: 13\r\n\r\n"
@@ -385,10 +421,15 @@ func startUpstream(s *script) *upstream {
 			// handshake reads return must not depend on the kernel coalescing the two writes
 			time.Sleep(120 * time.Millisecond)
 		}
+		if s.Chat != nil && !u.chat(s, conn) {
+			conn.Close()
+			<-rdDone
+			return
+		}
 		// writer: wait for the trigger
 		u.mu.Lock()
 		for {
-			if s.UTrig == uAtConnect || (s.UTrig == uAfterBytes && len(u.recv) >= s.UN) || (s.UTrig == uOnEOF && u.eof) {
+			if s.Chat != nil || s.UTrig == uAtConnect || (s.UTrig == uAfterBytes && len(u.recv) >= s.UN) || (s.UTrig == uOnEOF && u.eof) {
 				break
 			}
 			if u.eof {
@@ -401,7 +442,9 @@ func startUpstream(s *script) *upstream {
 			u.cond.Wait()
 		}
 		u.mu.Unlock()
-		if s.Kind == kWS && s.UTrig != uAtConnect {
+		if s.Chat != nil {
+			// everything has been sent round by round
+		} else if s.Kind == kWS && s.UTrig != uAtConnect {
 			for len(reply) > 0 {
 				n := min(len(reply), 20000)
 				if _, err := conn.Write(reply[:n]); err != nil {
@@ -455,6 +498,8 @@ type observation struct {
 	Cl       []byte
 	Panicked bool
 	TimedOut bool
+	DL       []dlEntry // chat scripts: the deadline log of the client connection
+	Base     time.Time // ... and the time its clock starts from
 }
 
 func proxyLine(s *script) []byte {
@@ -522,6 +567,10 @@ func runOnce(s *script) observation {
 			steps = append(steps, cstep{wait: s.WSHead})
 		}
 	}
+	if s.Chat != nil {
+		steps = s.Chat.clientSteps(segs)
+		segs = nil
+	}
 	for i, seg := range segs {
 		if i < skip {
 			continue
@@ -537,6 +586,7 @@ func runOnce(s *script) observation {
 		steps = append(steps, cstep{wait: len(s.Reply)})
 	}
 	cli := newCli(steps, s.CEnd, s.Local, s.Remote)
+	cli.logging = s.Chat != nil
 	switch s.Fin {
 	case 1:
 		cli.finErr = io.EOF
@@ -680,6 +730,9 @@ func runOnce(s *script) observation {
 	obs.ClEOF = cli.wrClosed
 	cli.mu.Unlock()
 	obs.Cl, _, _, _ = cli.snapshot()
+	cli.mu.Lock()
+	obs.DL, obs.Base = append([]dlEntry(nil), cli.dlLog...), cli.base
+	cli.mu.Unlock()
 	obs.Up, obs.Conn, _, _ = u.snapshot()
 	u.mu.Lock()
 	obs.UpClean = u.eof && u.clean
@@ -714,7 +767,8 @@ func racy(s *script) bool {
 	total := len(specUp(s))
 	early := s.UTrig == uAtConnect || (s.UTrig == uAfterBytes && s.UN <= total)
 	allBefore := s.UTrig == uOnEOF || (s.UTrig == uAfterBytes && s.UN >= total) || (s.UTrig == uAtConnect && total == 0)
-	return s.Bulk || (s.UEnd == uClose && early && !allBefore) || (s.UEnd == uHalf && !s.CliCW && early && !allBefore)
+	// (a conversation runs against wall-clock timeouts: a cut counts only if the replay repeats it)
+	return s.Bulk || s.Chat != nil || (s.UEnd == uClose && early && !allBefore) || (s.UEnd == uHalf && !s.CliCW && early && !allBefore)
 }
 
 func runCase(s *script) (observation, int) {
@@ -1521,6 +1575,10 @@ func main() {
 	// (a rand source of its own: the inputs of the classes above do not depend on it)
 	scripts = append(scripts, wsEarlyScripts(run)...)
 
+	// 3d. tcp paths: conversations in rounds that outlive the listener's rt= / wt= (both set, one set),
+	// with the deadline log of the connection (a rand source of its own)
+	scripts = append(scripts, chatScripts(run)...)
+
 	// run them (a few at a time; every connection has its own upstream listener)
 	type result struct {
 		o    observation
@@ -1557,6 +1615,18 @@ func main() {
 			sample["request_len"], sample["request_split"] = len(s.Req), s.ReqSplit
 		}
 		id := run.Add(s.Class, term, sample)
+		if s.Chat != nil {
+			sample["rounds"], sample["gap"], sample["talks_first"] = len(s.Chat.Msgs), s.Chat.Gap.String(), []string{"upstream", "client"}[s.Chat.First]
+			cut := 0
+			for _, e := range o.DL {
+				if e.Cut {
+					cut++
+				}
+			}
+			run.Add(s.Class+"/deadline-log", coqDeadlines(s, o), map[string]interface{}{"kind": kindName[s.Kind], "listener_read_timeout": s.RT.String(),
+				"listener_write_timeout": s.WT.String(), "operations": len(o.DL), "cut_by_timeout": cut, "rounds": len(s.Chat.Msgs), "gap": s.Chat.Gap.String(),
+				"upstream_got": len(o.Up), "upstream_expected": len(specUp(s)), "client_got": len(o.Cl), "client_expected": len(s.Reply)})
+		}
 		if o.Panicked {
 			run.Violation(id, "C09 panic inside the tunnel code ("+kindName[s.Kind]+")", sample)
 		}
